@@ -71,6 +71,7 @@ def machine(idx, extra_contracts=(), loop_bound=64, timeout_s=None, rope='contra
     """rope='contract': Rope behaves as the flat string (textmodel.py; discharged by the rope jobs);
     rope='real': rope.rs itself is interpreted from its MIR"""
     from . import textmodel as _tm          # registers text contracts
+    from . import jsonmodel as _jm          # registers the simd-json contract (C15)
     tab = list(extra_contracts) + [(p, f) for (p, f) in _contracts.table() if not (rope == 'real' and f.__name__.startswith('c_rope'))]
     m = Machine(idx, tab, loop_bound=loop_bound, timeout_s=timeout_s)
     m.overflow_checks = idx.flavour == 'mir'
